@@ -32,7 +32,7 @@ CONSTANTS
   InstallKinds = {"jump", "bool"}
   Faults = {"mmap", "mprotect"}
   SiteReuse = FALSE
-  MaxLives = 2
+  MaxLives = 1
   Gates = {"ok", "sig", "bool", "null"}
   MaxInstalls = 2
 CONSTRAINT CanonDrop
